@@ -210,6 +210,12 @@ def main(replay=None):
     kinds = ["nested", "split", "inclusions", "nested", "hole", "nonconductive", "nested", "split", "nested", "inclusions"] if quick else \
             ["nested", "split", "inclusions", "hole", "nonconductive"] * 6
     dist = {}; samples = []
+    import glob
+    for k, f in enumerate(sorted(glob.glob(os.path.join(core.VERIF, "corpus", "C04", "*.json")))):     # boundary cases, run first
+        pb = json.load(open(f))
+        pb["model"]["meshes"] = [(n, [tuple(v) for v in vs], [tuple(t) for t in ts]) for n, vs, ts in pb["model"]["meshes"]]
+        for sig, text, rep in run_problem(ck, hb, pb, 800 + k, stats): ck.violation(sig, text, rep)
+        dist["corpus"] = dist.get("corpus", 0) + 1
     for mid, kind in enumerate(kinds):
         pb = gen_problem(ck.rng, kind, quick, level=2 if (not quick and mid in (5, 11)) else 1)    # thorough: two heads with 162-vertex meshes
         for sig, text, rep in run_problem(ck, hb, pb, mid, stats): ck.violation(sig, text, rep)
